@@ -248,6 +248,7 @@ def trace_loop_hook(expected, locals_=(), post_iter=None, tag="foreach", pure=()
         # leave the arbitrary iteration
         del path.pc[saved_pc:]
         fr.env.clear()
+        fr.env_havoc = True
         fr.env.update({k_: v for k_, v in saved_env.items()})
         path.trace = saved_trace
         path.trace.append({"name": tag, "args": [it], "self": None, "ret": None})
